@@ -248,6 +248,29 @@ pub fn rec_short(e: &Enr) -> String {
     format!("{}/{}", id8(&e.node_id().raw()), e.seq())
 }
 
+/// The third item (recipient ip) of an encoded PONG: `02 ‖ rlp([id, enr-seq, ip, port])`.
+pub fn pong_ip_field(enc: &[u8]) -> Option<Vec<u8>> {
+    fn item(b: &[u8]) -> Option<(&[u8], &[u8])> {
+        // (payload of the first item, rest)
+        let h = *b.first()?;
+        match h {
+            0..=0x7f => Some((&b[..1], &b[1..])),
+            0x80..=0xb7 => { let n = (h - 0x80) as usize; Some((b.get(1..1 + n)?, b.get(1 + n..)?)) }
+            0xb8..=0xbf => { let l = (h - 0xb7) as usize; let n = b.get(1..1 + l)?.iter().fold(0usize, |a, x| a * 256 + *x as usize); Some((b.get(1 + l..1 + l + n)?, b.get(1 + l + n..)?)) }
+            0xc0..=0xf7 => { let n = (h - 0xc0) as usize; Some((b.get(1..1 + n)?, b.get(1 + n..)?)) }
+            _ => { let l = (h - 0xf7) as usize; let n = b.get(1..1 + l)?.iter().fold(0usize, |a, x| a * 256 + *x as usize); Some((b.get(1 + l..1 + l + n)?, b.get(1 + l + n..)?)) }
+        }
+    }
+    if *enc.first()? != 2 {
+        return None;
+    }
+    let (list, _) = item(&enc[1..])?;
+    let (_, rest) = item(list)?;
+    let (_, rest) = item(rest)?;
+    let (ip, _) = item(rest)?;
+    Some(ip.to_vec())
+}
+
 pub fn parse_addr(tok: &str) -> Option<SocketAddr> {
     let (ip, port) = tok.rsplit_once('/')?;
     let port: u16 = port.parse().ok()?;
@@ -1494,6 +1517,18 @@ impl Runner for ServiceRunner {
                             if r.id.0 != ridb || *to != na {
                                 out.push("!MON C14 pong-wrong-id-or-destination".into());
                             }
+                            // on the wire too: message type 2, list [id, enr-seq, ip, port] with the ip
+                            // field holding exactly the observed address (4 bytes for IPv4, 16 for IPv6,
+                            // IPv4-mapped ones included)
+                            let enc = response_encode(r.clone());
+                            let want: Vec<u8> = match a.ip() {
+                                IpAddr::V4(v) => v.octets().to_vec(),
+                                IpAddr::V6(v) => v.octets().to_vec(),
+                            };
+                            match pong_ip_field(&enc) {
+                                Some(f) if f == want => {}
+                                other => out.push(format!("!MON C14 encoded-pong-ip-field-is-not-the-observed-address field={:?} src={}", other.map(|f| hex::encode(f)), a)),
+                            }
                         }
                         if so.new_reqs.len() == 1 {
                             stats.bump("s.enr-request-after-ping");
@@ -2266,6 +2301,13 @@ fn gen_c14(rng: &mut Rng, ops: &mut Vec<String>, stats: &mut Stats) {
             // also from an address other than the one in the requester's record
             peer_addr(requester + rng.below(2), if rng.chance(1, 4) { "ip6" } else { "ip4" })
         };
+        // (an IPv6 socket that also takes IPv4 traffic sees IPv4 peers at IPv4-mapped addresses)
+        let addr = if rng.chance(1, 6) {
+            match parse_addr(&addr) {
+                Some(SocketAddr::V4(s4)) => format!("{}/{}", hex::encode(s4.ip().to_ipv6_mapped().octets()), s4.port()),
+                _ => addr,
+            }
+        } else { addr };
         if rng.chance(1, 5) {
             ops.push(format!("sreq A k{} {} {} ping {}", requester, addr, rid_tok(rng), rng.range(0, 5)));
             continue;
